@@ -6,13 +6,15 @@ All statements are about the model of `OG.C06.Model` (the repaired parser, see
 known_findings.jsonl for the five `fix:` commits) over definitions regenerated from the Go
 source (number automaton, escape set, boolean spellings, precision table).
 
+  whole lines     delimiter_found, tag_pair_roundtrip, line_roundtrip, line_roundtrip_strings,
+                  fast_path_sound
   round trips     string_roundtrip, string_denotation, tag_roundtrip, measurement_roundtrip,
                   bool_roundtrip, int_roundtrip_full (FALSE: negation proved) / _partial, int_stored
   validity        number_automaton_is_grammar, value_denotation, invalid_rejected,
                   valid_accepted, never_stores_other_value_full (FALSE) / _partial
   batches         batch_rows, batch_invalid_rejected_full (FALSE) / _partial, timestamp_exact
 -/
-import OG.C06.NoEsc
+import OG.C06.Strings
 
 namespace OG.C06
 open OG.Gen.C06
@@ -21,15 +23,7 @@ open OG.Gen.C06
 
 /-- **T1** every byte string written as a quoted field value is read back unchanged
 (quotes, backslashes, commas, spaces, equals signs, any byte). -/
-theorem string_roundtrip (s : Bytes) : parseStr (quoteStr s) = some s := by
-  show parseStr (bQuote :: (quoteBody s ++ [bQuote])) = some s
-  unfold parseStr
-  have hlen : ¬ ((bQuote :: (quoteBody s ++ [bQuote])).length < 2) := by simp
-  have hlast : (bQuote :: (quoteBody s ++ [bQuote])).getLast? = some bQuote := by
-    rw [← List.cons_append, List.getLast?_concat]
-  have h0 := unquoteRun_quoteBody s 0
-  simp only [Nat.mul_zero, List.replicate_zero, List.nil_append] at h0
-  simp only [if_true, hlast, hlen, false_or, ne_eq, not_true_eq_false, if_false, List.dropLast_concat, h0]
+theorem string_roundtrip (s : Bytes) : parseStr (quoteStr s) = some s := parseStr_quoteStr s
 
 example : parseStr (quoteStr [34, 92, 92, 34, 44, 32, 61]) = some [34, 92, 92, 34, 44, 32, 61] := by decide
 
@@ -267,6 +261,57 @@ example : examplePoint.Ok := by decide
 
 example : (parseRow false (showLine examplePoint)).toOption = some examplePoint.row := by
   rw [line_roundtrip examplePoint (by decide)]; rfl
+
+/-- **line round trip, every field type**: the canonical line of every well-formed point —
+any bytes in the measurement, tag keys and values and field keys (no double quote in a field
+key), integer / float / boolean fields, string fields with *any* byte string as value
+(commas, blanks, equals signs, quotes, backslashes), optional timestamp — parses to exactly
+that point. -/
+theorem line_roundtrip_strings (p : SPoint) (h : p.Ok) : parseRow false (showSLine p) = .ok p.row := by
+  obtain ⟨hn0, hnl, h9, h0, htags, hf0, hfs, hts⟩ := h
+  unfold parseRow showSLine
+  let np : NPoint := ⟨p.name, p.tags, [], none⟩
+  generalize hH : escapeTag p.name ++ (if p.tags = [] then [] else bComma :: showTagsTail p.tags) = H
+  generalize hT : showSFields p.fields ++ showTs p.ts = T
+  have e1 : skipLeadingWs (H ++ bSpace :: T) = H ++ bSpace :: T := by
+    rw [← hH, List.append_assoc]
+    obtain ⟨c, cs, hc, c1, c2, c3⟩ := escapeTag_head p.name
+      ((if p.tags = [] then [] else bComma :: showTagsTail p.tags) ++ bSpace :: T) hn0 h9 h0
+    rw [hc]; exact skipLeadingWs_of_head c1 c2 c3
+  simp only [e1]
+  have e2 : nextUnesc false bSpace (H ++ bSpace :: T) = some H.length := by
+    rw [← hH]; exact nextUnesc_found (clean_head_space np) T
+  rw [e2]
+  simp only [take_append_len, drop_append_len1]
+  rw [← hH, head_section np htags]
+  simp only [unescapeTag, Bool.false_eq_true, if_false, unescGo_escapeTag]
+  have e3 : ¬ p.name.length > maxMeasurementLength := by omega
+  show (if np.name.length > maxMeasurementLength then _ else _) = _
+  rw [if_neg e3]
+  have e4 : stripSpaces T = T := by
+    rw [← hT]
+    obtain ⟨c, cs, hc, hne⟩ := showSFields_head p.fields hf0 hfs (showTs p.ts)
+    rw [hc]; exact stripSpaces_of_head hne
+  rw [e4, ← hT]
+  exact tail_section_s p hf0 hfs hts _ _
+
+
+theorem line_roundtrip_strings_any_path (p : SPoint) (h : p.Ok) (noEsc : Bool)
+    (hn : noEsc = true → ∀ c ∈ showSLine p, c ≠ bBslash) : parseRow noEsc (showSLine p) = .ok p.row := by
+  cases noEsc with
+  | false => exact line_roundtrip_strings p h
+  | true => rw [fast_path_sound _ (hn rfl)]; exact line_roundtrip_strings p h
+
+/-- non-vacuity: `m\ 1,k=v s="a, b=\"c\\\"",n=7i,t="" 15` -/
+def exampleSPoint : SPoint :=
+  { name := [109, 32, 49], tags := [⟨[107], [118]⟩],
+    fields := [.str [115] [97, 44, 32, 98, 61, 34, 99, 92, 34], .num [110] [55, 105] (.int 7), .str [116] []],
+    ts := some 15 }
+
+example : exampleSPoint.Ok := by decide
+
+example : (parseRow false (showSLine exampleSPoint)).toOption = some exampleSPoint.row := by
+  rw [line_roundtrip_strings exampleSPoint (by decide)]; rfl
 
 /-! ## batches -/
 
